@@ -9,7 +9,12 @@
 //!   * `d` step into a read-only state: `save()` bytes and heads of the receiver unchanged (C22);
 //!   * `q` step: a quiet round is reached within the bound; then for every connected pair and
 //!     direction whose receiver is not read-only the receiver has every head of the sender, and
-//!     if both directions are read-write heads and hydrated state are equal.
+//!     if both directions are read-write heads and hydrated state are equal;
+//!   * `q` step in a PURE two-peer session (C20's hypotheses: two peers, first connection fresh/fresh,
+//!     non-legacy, afterwards only edit / generate / deliver): the number of rounds until both
+//!     `generate_sync_message` return None is at most the bound proved in
+//!     `lean/AmVerif/Props/C20Progress.lean` (`C20_progress`: missing + 4, for every false-positive
+//!     oracle), else `! C20 sig=round-bound-exceeded`.
 use super::{hx, unhx};
 use crate::{exec_line, rng::Rng, Out, Session};
 use automerge::sync::{self, Capability, Message, MessageFlags, MessageVersion, State, SyncDoc};
@@ -197,7 +202,14 @@ pub struct World {
     /// (a,b) such that a's state for b has been read-only at some point (oracle labelling)
     was_ro: BTreeSet<(usize, usize)>,
     faults: bool,
+    /// the session so far is an execution of the two-peer system of C20 (`Reachable` of
+    /// `Model/Sync2.lean`): histories built by edits/merges, ONE fresh/fresh non-legacy connection,
+    /// then only edit / generate / deliver
+    pure: bool,
+    connected: bool,
     pub last_rounds: u64,
+    /// `missing + 4` of the last pure quiesce (statistics)
+    pub last_bound: Option<u64>,
     _guard: HookGuard,
 }
 
@@ -234,7 +246,10 @@ impl World {
             universe: BTreeMap::new(),
             was_ro: BTreeSet::new(),
             faults: false,
+            pure: n == 2,
+            connected: false,
             last_rounds: 0,
+            last_bound: None,
             _guard: guard,
         }
     }
@@ -318,7 +333,27 @@ impl World {
         }
     }
 
+    /// hashes that have arrived at peer `p`: applied, or queued as orphans (`save()` appends the
+    /// queued changes after the document chunk)
+    fn arrived(&self, p: usize) -> HashSet<ChangeHash> {
+        let mut hs: HashSet<ChangeHash> = self.docs[p].get_changes(&[]).iter().map(|c| c.hash()).collect();
+        if let Ok(v) = chunk_hashes(&self.docs[p].save()) { hs.extend(v); }
+        hs
+    }
+
+    /// `Prog.missingDocs` of `Model/SyncBound.lean` on the real documents: changes applied at b that
+    /// have not arrived (applied or queued) at a, plus the changes applied at a that have not arrived at b
+    fn missing_pair(&self, a: usize, b: usize) -> u64 {
+        let (ha, hb) = (self.arrived(a), self.arrived(b));
+        let ca = self.docs[a].get_changes(&[]);
+        let cb = self.docs[b].get_changes(&[]);
+        (cb.iter().filter(|c| !ha.contains(&c.hash())).count() + ca.iter().filter(|c| !hb.contains(&c.hash())).count()) as u64
+    }
+
     fn quiesce(&mut self, bound: u64, res: &mut Vec<String>) {
+        // the proved round bound of C20 (`C20_progress`), taken before the first round
+        let c20_bound = if self.pure && self.connected && self.n == 2 { Some(self.missing_pair(0, 1) + 4) } else { None };
+        self.last_bound = c20_bound;
         let mut rounds = 0u64;
         let mut quiet = false;
         while rounds < bound {
@@ -340,6 +375,12 @@ impl World {
         let heads: Vec<String> = (0..self.n).map(|p| hl(&self.docs[p].get_heads())).collect();
         res.push(format!("q rounds={} quiet={} heads={}", rounds, b01(quiet), heads.join(";")));
         // direct oracles
+        if let Some(bd) = c20_bound {
+            // the loop counts the quiet round itself: quiescent after k rounds <=> quiet detected in round k+1
+            if (!quiet && rounds > bd) || (quiet && rounds > bd + 1) {
+                res.push(format!("! C20 sig=round-bound-exceeded rounds={} quiet={} proved-bound={} (missing+4, C20_progress)", rounds, b01(quiet), bd));
+            }
+        }
         if !quiet {
             res.push(format!("! {} sig=not-quiet not quiet within {} rounds", self.prop(), bound));
             return;
@@ -376,6 +417,17 @@ impl World {
         let f: Vec<&str> = s.split(':').collect();
         let mut res = vec![];
         let num = |x: &str| x.parse::<usize>().expect("peer");
+        match f[0] {
+            "e" | "q" | "b" => {}
+            "g" | "d" => { if !self.connected { self.pure = false; } }
+            "m" => { if self.connected { self.pure = false; } }
+            "c" => {
+                if self.connected || f[3] != "f" || f[4] != "f" || f[5] != "0"
+                    || self.docs.iter().any(|d| !d.get_missing_deps(&[]).is_empty()) { self.pure = false; }
+                self.connected = true;
+            }
+            _ => { self.pure = false; }
+        }
         match f[0] {
             "e" => {
                 let p = num(f[1]);
@@ -452,6 +504,11 @@ impl World {
                 res.push(format!("w {}", p));
             }
             "q" => { let bound = f[1].parse::<u64>().expect("bound"); self.quiesce(bound, &mut res); }
+            "b" => {
+                let (a, b) = (num(f[1]), num(f[2]));
+                let k = self.missing_pair(a, b);
+                res.push(format!("b {} {} missing={} bound={}", a, b, k, k + 4));
+            }
             _ => res.push("bad-step".into()),
         }
         res
@@ -473,7 +530,82 @@ pub fn exec(sess: &mut SyncSession, toks: &[&str]) -> Vec<String> {
 }
 
 /// Build a schedule by driving a scratch `World`, then route the finished line through `exec_line`.
+/// A PURE two-peer session (the hypotheses of C20): divergent histories with shared ancestors,
+/// one fresh connection, then edits / generates / deliveries in any interleaving, then the bound
+/// step and the quiesce step.  Forced false positives: 0, 5, 50 or 100 % of the changes.
+fn generate_pure(r: &mut Rng, sess: &mut Session, out: &mut Out) {
+    let fp_pct = *r.pick(&[0u64, 5, 50, 100]);
+    let main_steps = r.range(0, 60);
+    out.count("cases_pure_c20");
+    out.count(&format!("pure_fp_pct_{}", fp_pct));
+    let mut steps: Vec<String> = vec![];
+    {
+        let mut w = World::new(2);
+        let mut hashes: Vec<ChangeHash> = vec![];
+        macro_rules! push { ($s:expr) => {{ let s: String = $s; let o = w.step(&s); steps.push(s); o }}; }
+        macro_rules! edit { ($p:expr) => {{
+            let p: usize = $p;
+            let key = format!("k{}", r.below(4));
+            let present = w.docs[p].get(ROOT, key.as_str()).ok().flatten().is_some();
+            let val = if present && r.chance(1, 6) { "del".to_string() } else { r.below(1000).to_string() };
+            let saved = w.docs[p].clone();
+            if let Some((h, deps)) = w.do_edit(p, &key, &val) {
+                w.docs[p] = saved;
+                w.universe.remove(&h);
+                let isfp = r.below(100) < fp_pct;
+                let deps_s = if deps.is_empty() { "-".to_string() } else { deps.iter().map(|d| hex::encode(d.as_ref())).collect::<Vec<_>>().join(",") };
+                hashes.push(h);
+                out.count("steps_edit");
+                push!(format!("e:{}:{}:{}:{}:{}:{}", p, key, val, b01(isfp), hex::encode(h.as_ref()), deps_s));
+            } else { w.docs[p] = saved; }
+        }}; }
+        // starting histories: optional shared base, divergent branches (long ones too), merges
+        if r.chance(2, 3) {
+            for _ in 0..r.below(6) { edit!(0); }
+            if r.chance(3, 4) { push!("m:1:0".to_string()); }
+        }
+        let hist = if r.chance(1, 4) { r.range(15, 40) } else { r.below(14) };
+        for _ in 0..hist {
+            if r.chance(5, 6) { edit!(r.below(2) as usize); }
+            else { let a = r.below(2) as usize; out.count("steps_merge"); push!(format!("m:{}:{}", a, 1 - a)); }
+        }
+        push!("c:0:1:f:f:0".to_string());
+        for _ in 0..main_steps {
+            let (a, b) = if r.chance(1, 2) { (0usize, 1usize) } else { (1, 0) };
+            match r.below(100) {
+                0..=17 => { edit!(a); }
+                18..=54 => { out.count("steps_generate"); push!(format!("g:{}:{}", a, b)); }
+                _ => {
+                    let busy: Vec<(usize, usize)> = w.link.iter().filter(|(_, q)| !q.is_empty()).map(|(k, _)| *k).collect();
+                    if !busy.is_empty() { let &(x, y) = r.pick(&busy); out.count("steps_deliver"); push!(format!("d:{}:{}", x, y)); }
+                    else { out.count("steps_generate"); push!(format!("g:{}:{}", a, b)); }
+                }
+            }
+        }
+        push!("b:0:1".to_string());
+        let bound = 2 * hashes.len() as u64 + 16;
+        push!(format!("q:{}", bound));
+        out.add("pure_quiesce_rounds_total", w.last_rounds);
+        if let Some(bd) = w.last_bound {
+            out.add("pure_proved_bound_total", bd);
+            // slack = (bound + 1) - rounds; the oracle fires when it would be negative
+            let slack = (bd + 1).saturating_sub(w.last_rounds);
+            let cur = out.stats.get("pure_bound_slack_min").copied().unwrap_or(u64::MAX);
+            if slack < cur { out.stats.insert("pure_bound_slack_min".into(), slack); }
+        } else { out.count("pure_cases_lost_purity"); }
+        let cur = out.stats.get("pure_quiesce_rounds_max").copied().unwrap_or(0);
+        if w.last_rounds > cur { out.stats.insert("pure_quiesce_rounds_max".into(), w.last_rounds); }
+        out.add("changes_total", hashes.len() as u64);
+    }
+    exec_line(sess, &format!("sync.run 2 {}", steps.join(";")), out);
+}
+
 pub fn generate(r: &mut Rng, opts: &BTreeMap<String, String>, sess: &mut Session, out: &mut Out) {
+    // every fourth case is a pure C20 session (decided by the case index, so the other cases of a
+    // seed are exactly what they were before this generator existed)
+    let idx = out.stats.get("sync_cases").copied().unwrap_or(0);
+    out.count("sync_cases");
+    if idx % 4 == 3 { return generate_pure(r, sess, out); }
     let n = match r.below(10) { 0..=4 => 2usize, 5..=7 => 3, _ => 4 };
     let fp_pct = *r.pick(&[0u64, 5, 50]);
     // losing a document is outside the fault model of C21 (drops, message loss, fresh/persisted
